@@ -92,6 +92,9 @@ counts (waiting, or waiting + bound under waiting-and-running).
                                 lone replacement member with 1 < min 2 on an only-waiting scheduler
    mode_spellings_reject_like_strict / mode_stored_as_written_counterexample   `strict` etc. reject the parked member
                                 like `Strict`; read as NonStrict the member keeps waiting
+   base_inv_any_default / partition_reachable_any_default_partial / group_never_empty_any_default   the history theorems
+                                of C and F from `initWith d`, i.e. under every configured default (the partition one
+                                is partial for the same reason as partition_inv_partial: hypothesis ContractOK)
 -/
 namespace KoordVerif.C04
 
@@ -1078,5 +1081,17 @@ theorem mode_stored_as_written_counterexample :
     (step (run init (strictFailureHistory 0)) (.postFilter 1 0)).2.rejected = [] ∧
     (step (run init (strictFailureHistory 0)) (.postFilter 1 0)).1.fw = [(0, 0)] := by
   decide
+
+/-- The history theorems of sections C and F hold on a scheduler configured with ANY default match policy (the harness
+    runs its histories from `initWith d`, d = only-waiting / waiting-and-running / once-satisfied / empty). -/
+theorem base_inv_any_default (d : Nat) (ops : List Op) : AllG PodSets.Base (run (initWith d) ops).gangs :=
+  base_inv_run (initWith d) ops (fun g hg => by simp [initWith_gangs] at hg)
+
+theorem partition_reachable_any_default_partial (d : Nat) (ops : List Op) (hc : ContractOK (initWith d) ops) :
+    AllG PodSets.Part (run (initWith d) ops).gangs :=
+  partition_inv_partial (initWith d) ops (fun g hg => by simp [initWith_gangs] at hg) hc
+
+theorem group_never_empty_any_default (d : Nat) (ops : List Op) : ∀ g ∈ (run (initWith d) ops).gangs, g.group ≠ [] :=
+  groupNE_run (initWith d) ops (fun g hg => by simp [initWith_gangs] at hg)
 
 end KoordVerif.C04
